@@ -1,6 +1,7 @@
 //@unit relay_handshake props=C03
 // C03 — relay handshake admits an identity only with proof of its secret key.
 use vstd::prelude::*;
+use vstd::std_specs::cmp::OrdSpec;
 macro_rules! trace { ($($t:tt)*) => {}; }
 // n0_error::e! builds the named error value (plus a source location); ensure!(c, E) is `if !c { return Err(e!(E).into()) }`
 macro_rules! e {
@@ -10,6 +11,7 @@ macro_rules! e {
 macro_rules! anyerr { ($($t:tt)*) => { () }; }
 macro_rules! ensure { ($cond:expr, $($t:tt)*) => { if !$cond { return Err(into_err(e!($($t)*))); } }; }
 verus! {
+//@include shims/std_wide.rs
 // ---- error values built by the e!/ensure! shims (n0_error's macros add a source location only)
 pub struct Error;
 pub struct VerificationError;
@@ -161,9 +163,6 @@ pub async fn write_frame<F: Frame, I: BytesStreamSink>(io: &mut I, frame: F) -> 
 #[verifier::external_body]
 pub fn deserialize_frame<F>(frame: Bytes) -> (r: Result<F, Error>) { unimplemented!() }
 
-pub assume_specification<T: PartialEq> [<[T]>::contains] (s: &[T], x: &T) -> (r: bool)
-    ensures r ==> s@.contains(*x);
-pub assume_specification<T: Clone> [<[T]>::to_vec] (s: &[T]) -> (r: Vec<T>) ensures r@ == s@;
 #[verifier::external_body]
 pub fn slice_try_into_arr<const N: usize>(s: &[u8]) -> (r: Result<[u8; N], core::array::TryFromSliceError>)
     ensures r is Ok <==> s@.len() == N, r matches Ok(a) ==> a@ == s@
